@@ -34,7 +34,11 @@ BindW(w) == /\ total' = Ev.total /\ since' = Ev.since /\ state' = Ev.state
         /\ warm' = w
 Bind == BindW(Warm(Ev.since, Ev.total, Ev.facts))
 Explained(A, name) == ChkB(name, A, <<"before", total, since, state, recs, "after", Ev.total, Ev.since, Ev.state, Ev.recs, "warm", warm'>>)
-Upd == /\ More /\ Ev.op = "update" /\ Bind
+(* KdqTreeStreaming: the reference window is the first W samples of the epoch - the since-reset counter restarts with exactly that sample *)
+RefPoint == IF cfg.kind = "kdqs" THEN ChkB("the reference window completes with the W-th sample of the epoch (since-reset restarts there and only there)",
+                                          (Ev.facts.epochn = cfg.a) <=> (Ev.since = 0), <<"sample of the epoch", Ev.facts.epochn, "W", cfg.a, "since", Ev.since>>)
+            ELSE TRUE
+Upd == /\ More /\ Ev.op = "update" /\ Bind /\ RefPoint
        /\ Explained(LC!Accepted \/ LC!AcceptedRefComplete, "accepted update follows the lifecycle contract") /\ Adv
 Ref == /\ More /\ Ev.op = "set_reference" /\ Bind /\ Explained(LC!SetReference, "set_reference starts an epoch") /\ Adv
 Rst == /\ More /\ Ev.op = "reset" /\ Bind /\ Explained(LC!UserReset, "reset() restarts the epoch") /\ Adv
